@@ -91,6 +91,7 @@ type Frame struct {
 	rpo      []int
 	sticky   map[string]*Term
 	curBlock int
+	curMem   *Mem
 	rets     []retInfo
 	panics   int
 	in       *Interp
@@ -317,6 +318,9 @@ func (fr *Frame) inLoop(h, b int) bool {
 	}
 	return dfs(b)
 }
+
+// Mem returns the abstract memory at the instruction being evaluated.
+func (fr *Frame) Mem() *Mem { return fr.curMem }
 
 // Val returns the final value of an SSA value in this frame.
 func (fr *Frame) Val(v ssa.Value) *Term { return fr.vals[v] }
@@ -818,6 +822,7 @@ func (fr *Frame) set(v ssa.Value, t *Term) {
 func (fr *Frame) execBlock(blk *ssa.BasicBlock, mem *Mem) {
 	in := fr.in
 	b := blk.Index
+	fr.curMem = mem
 	for _, ins := range blk.Instrs {
 		in.Steps++
 		switch x := ins.(type) {
@@ -1311,7 +1316,8 @@ func (in *Interp) storePtr(fr *Frame, site ssa.Instruction, m *Mem, a, v *Term) 
 			if old.Op == "weak" && old.Name == name {
 				continue
 			}
-			m.store(o, cp, &Term{Op: "weak", Name: name, Args: []*Term{v, old}, T: v.T})
+			rel := Bin(token.SUB, p[j].Sym, Int(a.Win.Lo), types.Typ[types.Int])
+			m.store(o, cp, &Term{Op: "weak", Name: name, Args: []*Term{v, old, rel}, T: v.T})
 		}
 		return
 	}
